@@ -364,7 +364,7 @@ theorem deltaE_aux (tol : K) (level : Int) (limit : Option Int) :
   intro a it o b a' h
   simp only [deltaE] at h
   split at h
-  · simp at h
+  · simp only [Option.some.injEq, Prod.mk.injEq] at h; exact h.2.symm
   · simp only [Option.some.injEq, Prod.mk.injEq] at h; exact h.2.symm
 
 theorem absDeltaE_crit_true {dE : K} {level : Int} {limit : Option Int} {eold : K} {it : Int} {o : Obs K} {aux : K}
